@@ -33,13 +33,16 @@ static double tanrel(double y, double x, Q expect, double& allowance) {
 }
 
 // expected tangent of latitude `to` when latitude `from` has tangent |y/x| ; false if the oracle cannot invert
+static Q g_tphi;    // tangent of the geographic latitude found by the last expect_tan
 static bool expect_tan(const Ell& E, int from, int to, double y, double x, Q& out) {
   Q tz = (Q)std::fabs(y) / (Q)std::fabs(x);
+  g_tphi = tz;
   if (tz == 0 || isinfq(tz)) { out = tz; return true; }
   // starting guess: undo the leading factor (1-f)^p
   Q p = from == 1 ? 1 : from == 2 ? 2 : from == 3 ? (Q)1.5 : from == 4 ? 2 : from == 5 ? (Q)(4.0 / 3) : 0;
   Q T0 = tz / powq(E.fm1, p), T;
   if (!auxinv(E, from, tz, T0, T)) return false;
+  g_tphi = T;
   out = auxtan(E, to, T);
   // self-agreement of the quadrature at two depths
   if (to == 3 || to == 5) { Q o1 = auxtan(E, to, T, 1); if (fabsq(o1 / out - 1) > (Q)2e-18) return false; }
@@ -54,9 +57,7 @@ static bool expect_tan(const Ell& E, int from, int to, double y, double x, Q& ou
 static double aux_cond(const Ell& E, double f, int from, int to, double y, double x, Q ex_to) {
   double c = 1 + std::fabs(f * (2 - f) / ((1 - f) * (1 - f)));
   if (from == 4 || to == 4) {
-    Q tchi = to == 4 ? ex_to : (Q)std::fabs(y) / (Q)std::fabs(x), tphi;
-    if (to == 0) tphi = ex_to; else if (from == 0) tphi = (Q)std::fabs(y) / (Q)std::fabs(x);
-    else { Q T; if (!auxinv(E, 4, tchi, tchi / E.e2m1, T)) T = tchi; tphi = T; }
+    Q tchi = to == 4 ? ex_to : (Q)std::fabs(y) / (Q)std::fabs(x), tphi = g_tphi;
     if (!isinfq(tchi) && !isinfq(tphi) && tchi > 0) c += (double)fabsq(asinhq(tphi) - asinhq(tchi));
   }
   return c;
@@ -304,7 +305,7 @@ static Reg r_elldeg("elldeg", [](const Args& a) {
     LD scphi = (LD)(T / (1 + T * T)); if (isinfq(T)) scphi = 0;
     LD tol2 = 4 * ulp(phi) + 8 * ulp(out[i]) * (sc > 0 ? scphi / (sc * dl) : 1) + 64 * EPS * cnd * scphi * (180 / PIl) + 4 * DMIN;
     if (i == 4 && f <= -1) continue;   // [class:authalic-prolate], reported through auxconv
-    if (!(fabsl((LD)inv[i] - (LD)phi) <= tol2)) bad("latitude-roundtrip", std::string("Inverse") + AUXN[i + 1] + "(" + AUXN[i + 1] + "(phi)) = " + scid(inv[i]) + " for phi = " + scid(phi) + " (f=" + scid(f) + ", tol " + sci(tol2) + ")");
+    if (tol2 < 1e-3 && !(fabsl((LD)inv[i] - (LD)phi) <= tol2)) bad("latitude-roundtrip", std::string("Inverse") + AUXN[i + 1] + "(" + AUXN[i + 1] + "(phi)) = " + scid(inv[i]) + " for phi = " + scid(phi) + " (f=" + scid(f) + ", tol " + sci(tol2) + ")");
   }
   // isometric latitude psi = asinh(tan chi) in degrees
   { Q ex = auxtan(E, 4, T); LD want = (LD)(asinhq(ex) * 180 / PIq);
@@ -314,7 +315,7 @@ static Reg r_elldeg("elldeg", [](const Args& a) {
       if (!(fabsl((LD)std::fabs(psi) - want) <= 32 * EPS * cnd * fmaxl(want, 1e-300L) + 4 * DMIN)) bad("isometric", "IsometricLatitude(" + scid(phi) + ") = " + scid(psi) + " want " + sci(want) + " (f=" + scid(f) + ")");
       LD scphi = (LD)(T / (1 + T * T)), dl = T == 0 ? 1 : (LD)auxdlog(E, 4, T), cpsi = ex == 0 ? 1 : (LD)(sqrtq(1 + ex * ex) / ex) * fabsl((LD)psi) * (PIl / 180);  // d log tan chi / d log psi
       LD tol3 = 4 * ulp(phi) + 64 * EPS * cnd * scphi * (180 / PIl) * (1 + cpsi / dl) + 4 * DMIN;
-      if (!(fabsl((LD)ipsi - (LD)phi) <= tol3)) bad("isometric", "InverseIsometricLatitude(IsometricLatitude(phi)) = " + scid(ipsi) + " for phi = " + scid(phi) + " (f=" + scid(f) + ")");
+      if (tol3 < 1e-3 && !(fabsl((LD)ipsi - (LD)phi) <= tol3)) bad("isometric", "InverseIsometricLatitude(IsometricLatitude(phi)) = " + scid(ipsi) + " for phi = " + scid(phi) + " (f=" + scid(f) + ")");
     }
   }
 });
